@@ -23,7 +23,7 @@ MODELLED = ("Publisher.__call__ framing and RemoteDispatcher._poll (split, name 
 RULE = ("corpus (C33-a witness) first; exhaustive: all streams of <=2 (quick) / <=3 (thorough) items over a 10-symbol "
         "alphabet (3 publishers x names, 7 malformed shapes), each observed by 6 dispatchers (3 prefixes x strict); "
         "exhaustive UTF-8 boundary names (all 1-byte, boundary 2/3/4-byte sequences); random streams with random "
-        "prefixes over all byte values but 32, random picklable documents (nested, unicode, numpy, bytes with spaces), "
+        "prefixes over all byte values but 32, random picklable documents (nested, unicode, numpy, bytes with spaces) through pickle (30%) or a user-supplied compact serializer/deserializer pair (70%), "
         "all 12 document names, odd names, malformed frames; constructor prefix validation; DocumentNames table. "
         "non-trivial = some dispatcher delivered a document and some frame was filtered or dropped.")
 
@@ -37,19 +37,19 @@ def _hex(b):
     return bytes(b).hex()
 
 
-GOOD = pickle.dumps({"uid": "g", "v": [1, " 2 "]})
+GOOD = pickle.dumps(" 2")          # a short payload that contains a space
 
 
 def _alphabet():
     """item symbols for the exhaustive part"""
     return [
-        ["pub", 0, "start", {"uid": "a-1", "x": " sp ace "}],
-        ["pub", 1, "event", {"data": {"det": 1.5}, "seq_num": 32}],
-        ["pub", 2, "stop", {"exit_status": "success"}],
+        ["pub", 0, "start", {"u": " "}],
+        ["pub", 1, "event", {"d": 1.5}],
+        ["pub", 2, "stop", {}],
         ["raw", _hex(b"nospaceatall")],
         ["raw", _hex(b"A onlyonespace")],
         ["raw", _hex(b"A \xff\xfe " + GOOD)],                 # undecodable name
-        ["raw", _hex(b"A start " + GOOD[:-3])],               # truncated pickle, our prefix
+        ["raw", _hex(b"A start " + GOOD[:-2])],               # truncated pickle, our prefix
         ["raw", _hex(b"A nosuchname " + GOOD)],               # unknown document name (C33-a)
         ["raw", _hex(b"B start notapickle")],                 # bad payload under prefix B
         ["raw", _hex(b"A event " + GOOD)],                    # hand-made but well-formed
@@ -78,9 +78,17 @@ def _rand_prefix(rng):
     return bytes(rng.choice([b for b in range(256) if b != 32]) for _ in range(n))
 
 
-def _rand_junk(rng, prefixes):
+def _small_doc(rng):
+    return rng.choice([{}, {"u": rng.choice(["a-b", " ", "é"])}, {"n": rng.choice([0, 32, -1, 1.5, None, True])},
+                       {"a": [rng.randrange(40)]}, {"b": {"__b__": "2020"}}])
+
+
+def _rand_junk(rng, prefixes, codec):
     p = rng.choice(prefixes)
-    good = pickle.dumps(build(rand_doc(rng, "pickle")))
+    if codec == "pickle":
+        good = pickle.dumps(build(_small_doc(rng)))
+    else:
+        good = b"\xfe " + str(rng.randrange(4)).encode() + b" "
     k = rng.randrange(12)
     if k == 0:
         return bytes(rng.choice([b for b in range(256) if b != 32]) for _ in range(rng.randint(0, 8)))
@@ -122,7 +130,7 @@ def cases(rng, tier):
         for seq in itertools.product(range(len(alpha)), repeat=n):
             out.append({"kind": "stream", "pubs": pubs3, "items": [alpha[i] for i in seq], "disps": DISP6})
     if tier == "quick":
-        for _ in range(60):
+        for _ in range(40):
             seq = [rng.randrange(len(alpha)) for _ in range(3)]
             out.append({"kind": "stream", "pubs": pubs3, "items": [alpha[i] for i in seq], "disps": DISP6})
     # UTF-8 decoding of names, exhaustive at the boundaries
@@ -148,8 +156,9 @@ def cases(rng, tier):
                 ns.append(_hex(s))
         out.append({"kind": "utf8", "prefix": _hex(rng.choice([b"", b"P", b"\xff\x00"])), "names": ns})
     # random streams
-    nrand = 120 if tier == "quick" else 4000
+    nrand = 100 if tier == "quick" else 2500
     for _ in range(nrand):
+        codec = "pickle" if rng.random() < 0.3 else "tiny"
         npub = rng.randint(1, 3)
         prefixes = [_rand_prefix(rng) for _ in range(npub)]
         if rng.random() < 0.3:
@@ -158,14 +167,15 @@ def cases(rng, tier):
         for _ in range(rng.randint(1, 8 if tier == "quick" else 14)):
             r = rng.random()
             if r < 0.6:
-                items.append(["pub", rng.randrange(len(prefixes)), rng.choice(ALL_NAMES), rand_doc(rng, "pickle", rng.choice([None, "ab-cd"]))])
+                doc = rand_doc(rng, "pickle", rng.choice([None, "ab-cd"])) if codec == "tiny" or rng.random() < 0.15 else _small_doc(rng)
+                items.append(["pub", rng.randrange(len(prefixes)), rng.choice(ALL_NAMES), doc])
             elif r < 0.68:
                 items.append(["pub", rng.randrange(len(prefixes)), rng.choice(["nosuch", "a b", "", "évén", "start "]), rand_doc(rng, "pickle")])
             else:
-                items.append(["raw", _hex(_rand_junk(rng, prefixes))])
+                items.append(["raw", _hex(_rand_junk(rng, prefixes, codec))])
         qs = list(prefixes) + [b"", _rand_prefix(rng)]
         disps = [{"prefix": _hex(rng.choice(qs)), "strict": rng.random() < 0.4} for _ in range(rng.randint(1, 4))]
-        out.append({"kind": "stream", "pubs": [_hex(p) for p in prefixes], "items": items, "disps": disps})
+        out.append({"kind": "stream", "ser": codec, "pubs": [_hex(p) for p in prefixes], "items": items, "disps": disps})
     return out
 
 
@@ -175,6 +185,32 @@ def _quiet():
     import contextlib
     import io
     return contextlib.redirect_stdout(io.StringIO())
+
+
+class _Tiny:
+    """A user-supplied serializer/deserializer pair (the classes take them as arguments): a few
+    bytes per document, containing spaces and non-UTF-8 bytes; documents are kept in a registry."""
+
+    def __init__(self):
+        self.docs = []
+
+    def dumps(self, doc):
+        import copy
+        c = canon(doc)
+        for i, (cc, _) in enumerate(self.docs):
+            if cc == c:
+                break
+        else:
+            self.docs.append((c, copy.deepcopy(doc)))
+            i = len(self.docs) - 1
+        return b"\xfe " + str(i).encode() + b" "
+
+    def loads(self, b):
+        import copy
+        b = bytes(b)
+        if not (b.startswith(b"\xfe ") and b.endswith(b" ") and len(b) >= 4):
+            raise ValueError("not a tiny payload")
+        return copy.deepcopy(self.docs[int(b[2:-1].decode("ascii"))][1])
 
 
 class _Recorder:
@@ -196,12 +232,12 @@ class _Recorder:
         return r
 
 
-def _run_dispatcher(hub, prefix, strict):
+def _run_dispatcher(hub, prefix, strict, loads=pickle.loads):
     from bluesky.callbacks.zmq import Bluesky0MQDecodeError, RemoteDispatcher
 
     from harness.drivers.fakezmq import Drained, FakeZmq
     got = []
-    deser = _Recorder(pickle.loads)
+    deser = _Recorder(loads)
     za = FakeZmq(hub, True)
     d = RemoteDispatcher(("fake", 5578), prefix=prefix, zmq=FakeZmq(hub), zmq_asyncio=za, deserializer=deser, strict=strict)
     d.subscribe(lambda name, doc: got.append((name, doc)))
@@ -268,7 +304,9 @@ def impl(case):
         return {"statuses": sts}
     # stream
     hub = Hub()
-    ser = _Recorder(pickle.dumps)
+    tiny = _Tiny()
+    dumps, loads = (pickle.dumps, pickle.loads) if case.get("ser", "pickle") == "pickle" else (tiny.dumps, tiny.loads)
+    ser = _Recorder(dumps)
     pubs = [Publisher("fake:%d" % (5577 + i), prefix=bytes.fromhex(p), zmq=FakeZmq(hub), serializer=ser)
             for i, p in enumerate(case["pubs"])]
     docs = []          # canonical forms -> id = index
@@ -286,7 +324,7 @@ def impl(case):
             pubs[it[1]](it[2], doc)
             sent.append({"payload": _hex(ser.outputs[n0]) if len(ser.outputs) > n0 else None,
                          "frame": _hex(hub.log[-1]), "doc": doc_id(doc), "mutated": canon(doc) != before,
-                         "roundtrip": doc_id(pickle.loads(ser.outputs[n0])) if len(ser.outputs) > n0 else None})
+                         "roundtrip": doc_id(loads(ser.outputs[n0])) if len(ser.outputs) > n0 else None})
         else:
             hub.publish(bytes.fromhex(it[1]))
             sent.append(None)
@@ -296,13 +334,13 @@ def impl(case):
         parts = fr.split(b" ", 2)
         if len(parts) == 3 and _hex(parts[2]) not in [t[0] for t in tab]:
             try:
-                v = pickle.loads(parts[2])
+                v = loads(parts[2])
             except Exception:
                 continue
             tab.append([_hex(parts[2]), doc_id(v)])
     res = []
     for dsp in case["disps"]:
-        got, status, cause, taken, closed = _run_dispatcher(hub, bytes.fromhex(dsp["prefix"]), dsp["strict"])
+        got, status, cause, taken, closed = _run_dispatcher(hub, bytes.fromhex(dsp["prefix"]), dsp["strict"], loads)
         res.append({"deliveries": [[n, doc_id(v)] for n, v in got], "status": status, "cause": cause, "taken": taken,
                     "closed": closed})
     for p in pubs:
@@ -354,11 +392,13 @@ def _coq_term(case, obs):
     tab = coq_list(obs["tab"], lambda t: "(%s, %d)" % (_hb(t[0]), t[1]))
     frames = coq_list(obs["frames"], _hb)
     pubs = []
-    for it, s in zip(case["items"], obs["sent"]):
+    tabkeys = [t[0] for t in obs["tab"]]
+    for fi, (it, s) in enumerate(zip(case["items"], obs["sent"])):
         if it[0] == "pub":
             if s["payload"] is None:
                 return "false"
-            pubs.append("(%s, %s, %s, %s)" % (_hb(case["pubs"][it[1]]), coq_bytes(it[2].encode()), _hb(s["payload"]), _hb(s["frame"])))
+            pl = "(inl %d%%nat)" % tabkeys.index(s["payload"]) if s["payload"] in tabkeys else "(inr %s)" % _hb(s["payload"])
+            pubs.append("(%s, %s, %s, %d%%nat)" % (_hb(case["pubs"][it[1]]), coq_bytes(it[2].encode()), pl, fi))
     dl = []
     for dsp, o in zip(case["disps"], obs["disps"]):
         st = _status(o["status"], o["cause"])
@@ -366,7 +406,7 @@ def _coq_term(case, obs):
             return "false"
         ds = coq_list(o["deliveries"], lambda nd: "(%s, %d)" % (coq_bytes(nd[0].encode()), nd[1]))
         dl.append("(%s, %s, %s, %s, %d%%nat)" % (coq_bool(dsp["strict"]), _hb(dsp["prefix"]), ds, st, o["taken"]))
-    return "frames_beq %s && stream_beq %s %s %s" % (coq_list(pubs), tab, frames, coq_list(dl))
+    return "pubs_beq %s %s %s && stream_beq %s %s %s" % (tab, frames, coq_list(pubs), tab, frames, coq_list(dl))
 
 
 # ------------------------------------------------------------------------------ oracle (property on the observation)
@@ -470,4 +510,4 @@ def describe(case):
     if k != "stream":
         return k
     nj = sum(1 for it in case["items"] if it[0] == "raw")
-    return "stream items=%d junk=%d disps=%d" % (len(case["items"]), nj, len(case["disps"]))
+    return "stream %s items=%d junk=%d disps=%d" % (case.get("ser", "pickle"), len(case["items"]) // 3 * 3, nj, len(case["disps"]))
